@@ -68,11 +68,14 @@ class BBUnitaryChecker(ast.NodeVisitor):
             self.visit(bb.branch_pred)
 
     def _check_classical_args(self, args: list[ast.expr]) -> bool:
+        # Visit every argument, also the ones after the first qubit: they may contain
+        # calls that have to be checked themselves
+        classical = True
         for arg in args:
             self.visit(arg)
             if contain_qubit_ty(get_type(arg)):
-                return False
-        return True
+                classical = False
+        return classical
 
     def _check_call(self, node: AnyCall, ty: FunctionType) -> None:
         classic = self._check_classical_args(node.args)
